@@ -46,7 +46,12 @@ impl AckFrequencyState {
         config
             .max_ack_delay
             .unwrap_or(self.peer_max_ack_delay)
-            .clamp(min_ack_delay, rtt.max(MIN_AUTOMATIC_ACK_DELAY))
+            .clamp(
+                min_ack_delay,
+                // Never request less than the peer can honour; also keeps `clamp` from panicking
+                // when the peer's `min_ack_delay` exceeds the RTT
+                rtt.max(MIN_AUTOMATIC_ACK_DELAY).max(min_ack_delay),
+            )
     }
 
     /// Returns the `max_ack_delay` for the purposes of calculating the PTO
